@@ -846,3 +846,47 @@ def parse_int_terms(uni, s, ty):
         ent = (z3bool(valid), value)
         uni.memo[key] = ent
     return ent
+
+
+# ----------------------------------------------------------------------
+# splitting / stripping (concrete strings here; the char-level symbolic
+# versions live in models_chars.py and take precedence when loaded)
+
+@model(r'^core::str::<impl str>::split::<(char|&str)>$')
+def m_split(ex, callee, args):
+    s = as_str(args[0])
+    p = _pat(ex, args[1])
+    if isinstance(s, bytes) and isinstance(p, bytes):
+        return IterV('owned', VecV([StrV(x) for x in s.split(p)]))
+    h = getattr(ex, 'sym_split', None)
+    if h is not None:
+        return h(s, p)
+    raise Unsupported('split of a symbolic string')
+
+
+@model(r'^core::str::<impl str>::strip_(prefix|suffix)::<')
+def m_strip(ex, callee, args):
+    s = as_str(args[0])
+    p = _pat(ex, args[1])
+    pre = 'strip_prefix' in callee
+    if isinstance(s, bytes) and isinstance(p, bytes):
+        if pre and s.startswith(p):
+            return some(StrV(s[len(p):]))
+        if not pre and s.endswith(p):
+            return some(StrV(s[:len(s) - len(p)]))
+        return none()
+    h = getattr(ex, 'sym_strip', None)
+    if h is not None:
+        return h(s, p, pre)
+    raise Unsupported('strip_prefix/suffix of a symbolic string')
+
+
+@model(r'^core::str::<impl str>::chars$')
+def m_chars(ex, callee, args):
+    s = as_str(args[0])
+    if isinstance(s, bytes):
+        return IterV('owned', VecV([mk_int(ord(c), 'char') for c in s.decode('utf-8')]))
+    h = getattr(ex, 'sym_chars', None)
+    if h is not None:
+        return h(s)
+    raise Unsupported('chars() of a symbolic string')
